@@ -180,6 +180,43 @@ Theorem C12_analysis_kernels_write_scratch_first :
 Proof. split; reflexivity. Qed.
 Print Assumptions C12_analysis_kernels_write_scratch_first.
 
+(** Regenerated (Gen/ScratchRegion.v, symbolic evaluation of the kernel bodies): in both
+    analysis kernels every scratch cell that is read is a cell the same call stores, for
+    every scratch parameter; distinct cells are distinct buffer elements (column < BPS).
+    The switch of generateI16Prediction is taken as a set of alternatives; its clauses
+    0 and 1 are exactly the range of the mode loop (maxIntra16Mode = 2). *)
+From Webp Require Conc.ConcScratchRegion.
+From WebpGen Require ScratchRegion.
+Module SR := Conc.ConcScratchRegion.
+Module GS := WebpGen.ScratchRegion.
+Theorem C12_analysis_kernels_scratch_covered :
+  forall k p w r, In (k, p, w, r) GS.kernel_regions ->
+  (forall c, In c r -> In c w) /\
+  (forall c1 c2, In c1 (w ++ r) -> In c2 (w ++ r) -> SR.index_of GS.bps c1 = SR.index_of GS.bps c2 -> c1 = c2) /\
+  r <> [].
+Proof. intros k p w r H. apply (SR.regions_covered_spec GS.bps GS.kernel_regions k p w r); [vm_compute; reflexivity|exact H]. Qed.
+Print Assumptions C12_analysis_kernels_scratch_covered.
+
+Theorem C12_analysis_kernels_regions_listed :
+  map (fun e => fst (fst e)) GS.kernel_regions =
+  [("computeMBAlphaDCTWith", "src"); ("computeMBAlphaDCTWith", "pred"); ("computeMBAlphaDCTWith", "tmpCoeffs");
+   ("computeMBUVAlphaDCTWith", "srcU"); ("computeMBUVAlphaDCTWith", "srcV"); ("computeMBUVAlphaDCTWith", "predU");
+   ("computeMBUVAlphaDCTWith", "predV"); ("computeMBUVAlphaDCTWith", "tmpCoeffs")]%string /\
+  GS.region_switches = ["generateI16Prediction|pred|mode|0,1"]%string /\ GS.max_intra16_mode = 2%nat /\
+  GS.bps = Z.to_nat WebpGen.Consts.dsp_BPS.
+Proof. repeat split; reflexivity. Qed.
+Print Assumptions C12_analysis_kernels_regions_listed.
+
+(** Partition shape of every go statement, recognised from the source (Gen/PartShapes.v;
+    the translator refuses on an unknown shape): each site's arithmetic IS the model
+    function whose exact-cover theorem is proved above for all n and all sizes. *)
+From WebpGen Require PartShapes.
+Theorem C12_site_partition_shapes_modelled :
+  WebpGen.PartShapes.site_shapes = modelled_site_shapes /\
+  forallb (fun e => existsb (String.eqb (snd e)) proved_shapes) WebpGen.PartShapes.site_shapes = true.
+Proof. split; reflexivity. Qed.
+Print Assumptions C12_site_partition_shapes_modelled.
+
 (** animation.DecodeFramesParallel (work queue + collection of results in arrival order,
     ConcQueue.v; [dec] = the frame decoder, arbitrary; [collect] = the current loop, which
     keeps the error of the lowest frame index, fix 8f1f7ab): the decoded frames are the
